@@ -225,17 +225,17 @@ Qed.
 Lemma encrypt_kw_cases alg kb pt :
   aes_size_ok (expected_key_size alg) = true ->
   match (if negb (Nat.eqb (len kb) (expected_key_size alg)) then Some ErrKeyTypeMismatch
-         else if negb (Nat.eqb (len pt mod 8) 0) then Some ErrOther
+         else if negb (Nat.eqb (len pt mod 8) 0) || Nat.eqb (len pt) 0 then Some ErrOther
          else None) with
-  | Some e => encrypt_kw alg kb pt = Err e
-  | None => exists out, encrypt_kw alg kb pt = Ok out
+  | Some e => encrypt_kw Fixed alg kb pt = Err e
+  | None => exists out, encrypt_kw Fixed alg kb pt = Ok out
   end.
 Proof.
   intro Hsz. unfold encrypt_kw.
   destruct (Nat.eqb_spec (len kb) (expected_key_size alg)) as [Hk|Hk]; cbn [negb]; [|reflexivity].
   rewrite (aes_key_ok_of_len kb _ Hk Hsz). cbn [negb].
-  unfold aeskw_wrap, kw_wrap.
-  destruct (Nat.eqb_spec (len pt mod 8) 0) as [Hpt|Hpt]; cbn [negb]; [|reflexivity].
+  unfold aeskw_wrap, kw_wrap. cbn [is_fixed andb].
+  destruct (negb (Nat.eqb (len pt mod 8) 0) || Nat.eqb (len pt) 0); [reflexivity|].
   destruct (kw_wrap_loop _ _ _) as [a rs']. eexists; reflexivity.
 Qed.
 
@@ -257,8 +257,8 @@ Qed.
        layer fails, with that check's sentinel, and otherwise returns a ciphertext. *)
 Theorem dispatch_encrypt_sound : forall alg key nonce aad pt,
   match dispatch_encrypt alg (shape_of key nonce [] pt) with
-  | Some e => encrypt_symmetric alg key nonce aad pt = Err e
-  | None => exists out, encrypt_symmetric alg key nonce aad pt = Ok out
+  | Some e => encrypt_symmetric Fixed alg key nonce aad pt = Err e
+  | None => exists out, encrypt_symmetric Fixed alg key nonce aad pt = Ok out
   end.
 Proof.
   intros alg key nonce aad pt.
@@ -588,7 +588,7 @@ Print Assumptions dispatch_decrypt_spec.
         whatever the key bytes, nonce, tag and data are. *)
 Theorem unknown_name_unsupported : forall alg key nonce aad pt,
   sym_std_of alg = None -> key_is_oct key = true ->
-  encrypt_symmetric alg key nonce aad pt = Err ErrUnsupportedAlgorithm.
+  encrypt_symmetric Fixed alg key nonce aad pt = Err ErrUnsupportedAlgorithm.
 Proof.
   intros alg key nonce aad pt Hs Hk. apply family_none_iff_std_none in Hs.
   destruct key; try discriminate. unfold encrypt_symmetric. now rewrite Hs.
@@ -607,7 +607,7 @@ Print Assumptions unknown_name_unsupported_decrypt.
 (* non-vacuity: a name of consts.go that neither function supports, with an octet key *)
 Example unknown_name_instance :
   sym_std_of "A128GCMKW" = None /\ key_is_oct (KOct [1%N; 2%N]) = true /\
-  encrypt_symmetric "A128GCMKW" (KOct [1%N; 2%N]) [] [] [3%N] = Err ErrUnsupportedAlgorithm /\
+  encrypt_symmetric Fixed "A128GCMKW" (KOct [1%N; 2%N]) [] [] [3%N] = Err ErrUnsupportedAlgorithm /\
   decrypt_symmetric Fixed Fixed "A128GCMKW" (KOct [1%N; 2%N]) [] [] [] [3%N]
     = Err ErrUnsupportedAlgorithm.
 Proof. repeat split; vm_compute; reflexivity. Qed.
@@ -615,7 +615,7 @@ Proof. repeat split; vm_compute; reflexivity. Qed.
 (* a key that is not an octet sequence is refused first, known name or not *)
 Theorem non_oct_key_mismatch : forall alg key nonce tag aad data,
   key_is_oct key = false ->
-  encrypt_symmetric alg key nonce aad data = Err ErrKeyTypeMismatch /\
+  encrypt_symmetric Fixed alg key nonce aad data = Err ErrKeyTypeMismatch /\
   (forall vkw vopen, decrypt_symmetric vkw vopen alg key nonce tag aad data = Err ErrKeyTypeMismatch).
 Proof.
   intros alg key nonce tag aad data Hk. destruct key; try discriminate; split; reflexivity.
@@ -811,21 +811,21 @@ Theorem encrypt_generic_dispatch : forall alg key nonce aad pt,
   match generic_route alg with
   | RouteSym =>
       match dispatch_encrypt alg (shape_of key nonce [] pt) with
-      | Some e => encrypt_generic alg key nonce aad pt = Err e
-      | None => exists ct tag, encrypt_generic alg key nonce aad pt = Ok (EOBytes ct tag)
+      | Some e => encrypt_generic Fixed alg key nonce aad pt = Err e
+      | None => exists ct tag, encrypt_generic Fixed alg key nonce aad pt = Ok (EOBytes ct tag)
       end
   | RouteAsym =>
       match lookup alg rsa_enc_table with
-      | None => encrypt_generic alg key nonce aad pt = Err ErrUnsupportedAlgorithm
+      | None => encrypt_generic Fixed alg key nonce aad pt = Err ErrUnsupportedAlgorithm
       | Some sc =>
           match rsa_modulus_bytes key with
-          | None => encrypt_generic alg key nonce aad pt = Err ErrKeyTypeMismatch
+          | None => encrypt_generic Fixed alg key nonce aad pt = Err ErrKeyTypeMismatch
           | Some k => if rsa_enc_fits sc k (List.length pt)
-                      then encrypt_generic alg key nonce aad pt = Ok EORandom
-                      else encrypt_generic alg key nonce aad pt = Err ErrOther
+                      then encrypt_generic Fixed alg key nonce aad pt = Ok EORandom
+                      else encrypt_generic Fixed alg key nonce aad pt = Err ErrOther
           end
       end
-  | RouteNone => encrypt_generic alg key nonce aad pt = Err ErrUnsupportedAlgorithm
+  | RouteNone => encrypt_generic Fixed alg key nonce aad pt = Err ErrUnsupportedAlgorithm
   end.
 Proof.
   intros alg key nonce aad pt. unfold encrypt_generic.
@@ -882,7 +882,7 @@ Print Assumptions decrypt_generic_dispatch.
    router does not know: all answered with ErrUnsupportedAlgorithm for an octet key *)
 Example generic_route_gaps :
   let k := KOct (repeat 0%N 16) in
-  map (fun a => encrypt_generic a k [] [] [])
+  map (fun a => encrypt_generic Fixed a k [] [] [])
       ["A128GCMKW"; "ECDH-ES"; "ECDH-ES+A128KW"; "A128CBC-NOPAD"; "no-such-alg"]
   = repeat (Err ErrUnsupportedAlgorithm) 5.
 Proof. vm_compute. reflexivity. Qed.
